@@ -21,6 +21,8 @@ def main():
         for name, prop, res in ex.map(one, dirs):
             ok = res.get("patch_applies") and res.get("existing_suite_pass") and res.get("demo_with_patch_fail") and res.get("demo_without_patch_pass")
             caught = "quick" if res.get("check_quick_exit") == 1 else "thorough" if res.get("check_thorough_exit") == 1 else "MISSED"
+            if caught == "MISSED" and any(v.get("exit") == 1 for v in (res.get("also") or {}).values()):
+                caught = "other:" + ",".join(o for o, v in res["also"].items() if v.get("exit") == 1)
             rows.append((name, prop, bool(ok), caught))
             print(name, prop, "confirmed" if ok else "NOT-CONFIRMED " + str({k: res.get(k) for k in ("patch_applies", "existing_suite_pass", "demo_with_patch_fail", "demo_without_patch_pass", "error")}), caught, flush=True)
     json.dump(rows, open("/verif/seeded/SUMMARY.json", "w"), indent=1)
